@@ -77,8 +77,22 @@ def write_manifest(path):
 
 
 # =====================================================================================================
-prop('C11',
-     level_text='placeholder',
-     level_note='placeholder',
-     claimed=False)
+KANI_NOTE = 'Kani harnesses run the real frost-core at toy ciphersuites; complete where loop-free over full-domain inputs, otherwise bounded as labelled per harness'
+
+prop('C06',
+     level_text='For every ciphersuite (abstract field/group), every (n,t), identifier list, key and RNG stream: Verus proves the real text of '
+                'split / generate_secret_shares / generate_secret_polynomial / evaluate_polynomial / evaluate_vss / SecretShare::verify / '
+                'KeyPackage::try_from / reconstruct / validate_num_of_signers against contracts that state the whole result (exact error per refused '
+                'parameter; shares = polynomial evaluations; commitment = G*coefficients; public package entries, group key, threshold), and '
+                'the property-level theorems (every dealer share verifies and yields a package consistent with the public package; any >= t '
+                'packages reconstruct the key; an altered share value or any single altered commitment coefficient is rejected) follow from '
+                'those contracts by machine-checked lemmas (native Lagrange interpolation proof, VSS completeness/soundness).',
+     level_note='Assumed (not proved here): generate_coefficients (closure over &mut rng inside repeat_with), default_identifiers and '
+                'Identifier::try_from(u16) contracts (Kani-backed on toy suites, bounded); field characteristic > 65535 is needed for default '
+                'identifiers to be distinct and is an explicit premise of split.ensures[value]; an altered *identifier* is rejected only unless '
+                'the polynomial takes the same value there (probability <= (t-1)/q) -- stated, not decided; curve crates obey the field/group axioms.',
+     assumptions=['generate_coefficients returns the next `size` draws of Field::random (assumed contract; Kani group coeffs, bounded size <= 4)',
+                  'default_identifiers(n) = [1*1, ..., n*1] and Identifier::try_from(u16) = n*1 (assumed contracts; Kani group ident, complete over u16 on toy fields)',
+                  'an altered identifier is rejected unless poly(a,i\') = poly(a,i): generic-position statement, not decided'],
+     design_ref='DESIGN.md section 4 C06')
 prop('CDEV', level_text='dev', level_note='dev', claimed=False)
